@@ -275,6 +275,11 @@ type SchemaOrStringArray struct {
 
 // JSONLookup implements an interface to customize json pointer lookup
 func (s SchemaOrStringArray) JSONLookup(token string) (interface{}, error) {
+	if len(s.Property) > 0 {
+		// the list of property names is what MarshalJSON writes in that case
+		r, _, err := jsonpointer.GetForToken(s.Property, token)
+		return r, err
+	}
 	r, _, err := jsonpointer.GetForToken(s.Schema, token)
 	return r, err
 }
